@@ -188,6 +188,13 @@ func (ip *Interp) binop(op token.Token, t types.Type, x, y Value, in ssa.Instruc
 	case token.NEQ:
 		return T.Not(ip.valEq(x, y))
 	}
+	// the runtime's "noescape" idiom: a pointer converted to uintptr and combined with the constant 0
+	// (x ^ 0, x | 0, x + 0) is the same pointer
+	if p, ok := x.(Pointer); ok {
+		if c, ok := y.(*Term); ok && c.IsConst() && c.C == 0 && (op == token.XOR || op == token.OR || op == token.ADD || op == token.SUB) {
+			return p
+		}
+	}
 	switch xv := x.(type) {
 	case *Term:
 		yv, ok := y.(*Term)
@@ -529,6 +536,7 @@ func (ip *Interp) rangeIter(x Value, t types.Type) Value {
 		return &iterV{kind: "string", runes: ip.strRunes(x)}
 	case *MapV:
 		it := &iterV{kind: "map", m: x}
+		ip.raceMap(x, false)
 		if x != nil {
 			it.order = ip.mapOrder(x)
 		}
@@ -660,6 +668,7 @@ func (ip *Interp) lookup(in *ssa.Lookup, x Value, key Value) Value {
 		}
 		panic(engineError{fmt.Sprintf("lookup in %T", x)})
 	}
+	ip.raceMap(m, false)
 	vt := in.X.Type().Underlying().(*types.Map).Elem()
 	var v Value
 	found := T.False
@@ -789,6 +798,7 @@ func (ip *Interp) mapUpdate(mv Value, key, val Value) {
 	if m == nil {
 		ip.goPanic("assignment to entry in nil map")
 	}
+	ip.raceMap(m, true)
 	i := ip.findEntry(m, key)
 	if i >= 0 {
 		m.entries[i].val = copyVal(val)
@@ -807,6 +817,7 @@ func (ip *Interp) mapDelete(m *MapV, key Value) {
 	if m == nil {
 		return
 	}
+	ip.raceMap(m, true)
 	i := ip.findEntry(m, key)
 	if i < 0 {
 		return
@@ -830,6 +841,44 @@ func (ip *Interp) mapDelete(m *MapV, key Value) {
 func (ip *Interp) callBuiltin(b *ssa.Builtin, args []Value, site ssa.Instruction) Value {
 	T := ip.p.T
 	switch b.Name() {
+	case "SliceData":
+		// unsafe.SliceData: a handle on the backing array, only ever handed to unsafe.String / unsafe.Slice
+		sl, _ := args[0].(SliceV)
+		return &HostObj{Kind: "slicedata", Data: sl.Data}
+	case "StringData":
+		st, _ := args[0].(*StrV)
+		bs := ip.strBytes(st)
+		d := make([]Value, len(bs))
+		for i, b := range bs {
+			d[i] = b
+		}
+		return &HostObj{Kind: "slicedata", Data: d}
+	case "String":
+		// unsafe.String(ptr, len): the bytes as they are now (strings are immutable values in the engine)
+		h, ok := args[0].(*HostObj)
+		n := int(ip.concInt(args[1]))
+		if !ok || h.Kind != "slicedata" || n > len(h.Data) {
+			if n == 0 {
+				return mkStr("")
+			}
+			unsupported("unsafe.String on %T", args[0])
+		}
+		ts := make([]*Term, n)
+		for i := 0; i < n; i++ {
+			ts[i] = h.Data[i].(*Term)
+		}
+		return strFromTerms(ts)
+	case "Slice":
+		h, ok := args[0].(*HostObj)
+		n := int(ip.concInt(args[1]))
+		if !ok || h.Kind != "slicedata" || n > len(h.Data) {
+			unsupported("unsafe.Slice on %T", args[0])
+		}
+		d := make([]Value, n)
+		for i := 0; i < n; i++ {
+			d[i] = copyVal(h.Data[i])
+		}
+		return SliceV{Data: d}
 	case "len":
 		switch x := args[0].(type) {
 		case *StrV:
@@ -903,6 +952,10 @@ func (ip *Interp) callBuiltin(b *ssa.Builtin, args []Value, site ssa.Instruction
 		if len(src) < n {
 			n = len(src)
 		}
+		if ip.race != nil {
+			ip.raceElems(src[:n], false)
+			ip.raceElems(dst.Data[:n], true)
+		}
 		// handle overlap like memmove
 		tmp := make([]Value, n)
 		for i := 0; i < n; i++ {
@@ -923,6 +976,7 @@ func (ip *Interp) callBuiltin(b *ssa.Builtin, args []Value, site ssa.Instruction
 			ip.goPanic("close of closed channel")
 		}
 		c.closed = true
+		c.closeVC = ip.raceRelease()
 		return nil
 	case "panic":
 		ip.goPanic("panic: %s", describe(args[0]))
@@ -975,6 +1029,16 @@ func (ip *Interp) callBuiltin(b *ssa.Builtin, args []Value, site ssa.Instruction
 func (ip *Interp) appendSlice(dst SliceV, add []Value, elemSize int64) SliceV {
 	n := len(dst.Data)
 	need := n + len(add)
+	if ip.race != nil {
+		// append reads the old elements only when it has to move them, and writes the new ones (in place, into
+		// the shared backing array, when the capacity allows)
+		ip.raceElems(add, false)
+		if need <= cap(dst.Data) && dst.Data != nil {
+			ip.raceElems(dst.Data[n:need], true)
+		} else {
+			ip.raceElems(dst.Data, false)
+		}
+	}
 	if need <= cap(dst.Data) && dst.Data != nil {
 		nd := dst.Data[:need]
 		for i, v := range add {
